@@ -707,6 +707,10 @@ def run(ctx):
             t0 = drng.choice([0.0, 0.1, 0.2, 0.7, 1.1, 1e9 + 0.1, round(drng.uniform(0, 1000), drng.choice([1, 2, 3]))])
             gaps = [drng.choice([0.1, 0.2, 0.3, 0.7, 1.1, 0.01, round(drng.uniform(0, 10), drng.choice([1, 2]))])
                     for _ in range(drng.randrange(1, 5))]
+            if i % 7 == 3:
+                # an integer tick clock far above 2**53 (nanoseconds after months of uptime): distances are exact integers
+                t0 = drng.choice([2 ** 53 + 1, 2 ** 60 + 7, 10 ** 18 + 3])
+                gaps = [drng.choice([1, 2, 3, 7, 1000]) for _ in gaps]
             t, seen = t0, []
             for g in gaps:
                 t = t + g
